@@ -55,11 +55,14 @@ Step(e) ==
             LET tgt == IF e.ev = "replace" THEN e.r ELSE e.m
                 ScoreIn(s, id) == LET i == CHOOSE j \in DOMAIN s : s[j][1] = id IN s[i][2]
                 curids == ToSet(Ids(cur))
-            IN IF ~(ToSet(Ids(e.rest)) \subseteq curids /\ Ascending(e.rest))
-                 THEN bad(e.ev \o "-invented-or-reordered-entries")
+            \* A rewritten composite may even deliver documents that are not in the list (a required
+            \* operand turned optional) - again only with a score of at most q.
+            IN IF ~Ascending(e.rest) THEN bad(e.ev \o "-reordered-entries")
+               ELSE IF \E y \in ToSet(e.rest) : y[1] \notin curids /\ y[2] > e.q
+                 THEN bad(e.ev \o "-invented-an-entry-scoring-above-the-threshold")
                ELSE IF \E x \in ToSet(cur) : x[2] > e.q /\ x \notin ToSet(e.rest)
                  THEN bad(e.ev \o "-lost-or-changed-better-entry")
-               ELSE IF \E y \in ToSet(e.rest) : y[2] > ScoreIn(cur, y[1])
+               ELSE IF \E y \in ToSet(e.rest) : y[1] \in curids /\ y[2] > ScoreIn(cur, y[1])
                  THEN bad(e.ev \o "-raised-a-score")
                ELSE [same EXCEPT !.R = Put(R, tgt, e.rest),
                                  !.F = IF e.ev = "replace" THEN Put(F, tgt, e.rest) ELSE F]
